@@ -152,6 +152,15 @@ def main(tier: str) -> int:
                         out = net.forward(X)
                         if out.shape != (1, len(X), nout) or not np.all(np.isfinite(out)):
                             chk.fail("forward of a decoded net is not finite of shape (1, samples, n_outputs)", {**d, "shape": list(out.shape)}, {"fn": "decode", "clause": "forward"})
+                        # legal extremes: un-scaled features and every weight at the optimisers' border
+                        if n_trees % 3 == 0 and len(net._connects):
+                            ext = net.copy()
+                            ext._weights = np.full(len(net._connects), 10.0 if n_trees % 2 else -10.0)
+                            oe = ext.forward(np.abs(X) * 60.0)
+                            chk.count("forward_extreme")
+                            if oe.shape != (1, len(X), nout) or not np.all(np.isfinite(oe)):
+                                chk.fail("forward of a decoded net is not finite for un-scaled features and weights on the border of [-10, 10]",
+                                         {**d, "weights": float(ext._weights[0]), "x_scale": 60.0}, {"fn": "decode", "clause": "forward"})
                         sched = NL.sched_json(net)
                     except Exception as e:
                         chk.fail("forward of a decoded net raises / does not terminate", {**d, "error": repr(e)[:200]}, {"fn": "decode", "clause": "forward"})
